@@ -8,6 +8,7 @@ CONSTANTS
   MaxBlockSize = 7788
   TimeoutPerChunk = TRUE
   SerErrorsFatal = TRUE
+  VersionSkew = 0
   Streams = {}
 POSTCONDITION Accepted
 CHECK_DEADLOCK FALSE
